@@ -13,6 +13,7 @@ from vlib.runner import SubProp, Violation
 from mir_eval import hierarchy
 
 PROPERTY_ID = "C17"
+SCALE = (3, 8)   # budget multiplier (quick, thorough) applied to the n=(...) of every generated sub-property
 LEVEL = "exploration"
 RULE = ("pairs of 1-4 level hierarchies (nested or not, labels from 'abAB') over a common span [0,T] on a 1/4 s lattice with <= 40 "
         "frames; window in {None, frame_size, 0.75, 1, 2, 15}, frame_size in {0.25, 0.5, 0.75, 1}, transitive, beta; non-trivial = >= 2 "
